@@ -347,7 +347,11 @@ class FnVerifier:
         return R.entry_heap
 
     def spec_base_env(self, R):
-        return R.base_env
+        e = dict(R.base_env)
+        for gk, gv in R.globals_.items():
+            if gk not in self.c.params:
+                e[gk] = gv
+        return e
 
     # ------------------------------------------------------------------ symbolic allocation
     def alloc_symbolic(self, R, ty, name):
@@ -816,6 +820,22 @@ class FnVerifier:
     def havoc_modifies(self, R, cc, env, frame):
         for mx in cc.modifies:
             node = self.parse_clause(mx)
+            if isinstance(node, ast.Name) and node.id in R.globals_ and not R.globals_[node.id].t.heap \
+                    and not R.globals_[node.id].is_const and node.id not in env.get("__old_env__", {}).get("__params__", ()):
+                R.globals_[node.id] = fresh(R.globals_[node.id].t, node.id)  # a re-bound data global / ghost variable
+                env[node.id] = R.globals_[node.id]
+                continue
+            if isinstance(node, ast.Subscript) and isinstance(node.slice, ast.Constant) and isinstance(node.slice.value, str):
+                base = self.spec_in_env(R, ast.unparse(node.value), env)
+                if base.t.kind == "drec":
+                    key = node.slice.value
+                    cell = R.cell(base)
+                    R.write_check(base.z)
+                    cur = cell.content[key]
+                    cell.content[key] = fresh(cur.t, key) if not cur.t.heap else cur
+                    if "has_" + key in cell.content:
+                        cell.content["has_" + key] = fresh(T.Bool, "has_" + key)
+                    continue
             if isinstance(node, ast.Attribute):
                 base = self.spec_in_env(R, ast.unparse(node.value), env)
                 if base.t.kind == "obj":
@@ -868,7 +888,7 @@ class FnVerifier:
             entry_env = dict(frame.env)
             R.base_env = dict(R.globals_)
             R.base_env.update(entry_env)
-            R.base_env["__old_env__"] = dict(entry_env)
+            R.base_env["__old_env__"] = dict(R.globals_, **entry_env)
             for dname, dsrc in c.defs.items():
                 R.base_env[dname] = const(Closure(self.parse_clause(dsrc), None))
             R.named_heaps = {}
@@ -974,6 +994,9 @@ class FnVerifier:
         c = self.c
         kind, payload = outcome
         env = dict(R.base_env)
+        for gk, gv in R.globals_.items():
+            if gk not in c.params:
+                env[gk] = gv  # globals re-bound by the function (e.g. `global DIRSTACK`; ghost CWD)
         env["trace"] = const(("trace", R.trace))
         if self.is_generator:
             env["yielded"] = const(tuple(frame.yielded))
@@ -993,6 +1016,11 @@ class FnVerifier:
                     g = R.truthy(self.spec_in_env(R, en, env))
                 except ClauseVacuous:
                     continue
+                # listed known findings: the obligation is proved for every input OUTSIDE the listed class,
+                # so a different violation of the same clause is still reported
+                for kf in getattr(c, "known", []) or []:
+                    if kf.get("label") == lbl and kf.get("class"):
+                        g = z3.Or(self._old(R, kf["class"], env), g)
                 self.add_obligation(R, "ensures", lbl, g, clause=en)
             for lbl, en in c.ensures_locals.items():
                 try:
